@@ -32,8 +32,9 @@ func init() {
 		{"LX", []string{"LX-enum", "LX-len"}},
 		{"EQ", []string{"EQ-key", "EQ-lift"}},
 		{"AG", []string{"AG-merge"}},
-	}, map[string]int{"SM-panic": 19, "SM-deref": 19, "PN-panic": 4, "LP-loop": 10, "BN-neg": 40, "EQ-lift": 6},
-		"No reachable explicit panic, no out-of-range index or nil dereference in the scanner for any line sequence (typestate facts over the extracted automaton: SM-panic, SM-deref, RX-groups), every explicit panic site classified (PN), every index/slice operand built from arithmetic or a search result proved non-negative by an interval analysis with dominating guards (BN-neg) plus the listed upper-bound idioms (BN-idiom/array), every loop counted or matched against its structural termination argument (LP), progress of the scan and CLI loops (SM-progress, FL-suffix-once); the accesses merge makes to the other operand with the index of the left one are discharged by the named precondition that merge is only applied to similar operands, similarity implying equal lengths at every nesting level (AG-merge, EQ-lift, EQ-key), likewise Stack.less (LX-len). Not decided: reader cursor upper bounds (relational), general upper bounds, linear time.",
+		{"RB", []string{"RB-*"}},
+	}, map[string]int{"SM-panic": 19, "SM-deref": 19, "PN-panic": 4, "LP-loop": 10, "BN-neg": 40, "EQ-lift": 6, "RB-slice": 10, "RB-inv": 1, "RB-panic": 2, "RB-writers": 4},
+		"No reachable explicit panic, no out-of-range index or nil dereference in the scanner for any line sequence (typestate facts over the extracted automaton: SM-panic, SM-deref, RX-groups), every explicit panic site classified (PN), every index/slice operand built from arithmetic or a search result proved non-negative by an interval analysis with dominating guards (BN-neg) plus the listed upper-bound idioms (BN-idiom/array), every loop counted or matched against its structural termination argument (LP), progress of the scan and CLI loops (SM-progress, FL-suffix-once); the accesses merge makes to the other operand with the index of the left one are discharged by the named precondition that merge is only applied to similar operands, similarity implying equal lengths at every nesting level (AG-merge, EQ-lift, EQ-key), likewise Stack.less (LX-len); (RB) the cursors of the 16 KiB line reader: a relational abstract interpretation (octahedron domain: bounds on every ±1 combination of up to three of the cursor fields, their values at method entry and the loop variables; exact linear constraints with Fourier–Motzkin along loop-free segments; inferred type invariant 0 <= r <= w <= 16384, method summaries as entry/exit relations) proves every slice of the buffer in bounds for every chunking of the input and the 'full buffer' panic unreachable. Not decided: general upper bounds outside the reader and the listed idioms, linear time.",
 		"stdlib functions in the read-only table do not panic on any input (regexp, strconv, bytes, strings, net/url, go/parser, html/template)")
 	p("C04", []RuleSel{
 		{"AG", []string{"AG-*"}},
@@ -142,8 +143,9 @@ func init() {
 		{"FL", []string{"FL-chunk-once", "FL-line-shape", "FL-err-after-data", "FL-fill-account", "FL-fill-slide", "FL-fill-guard", "FL-fill-err", "FL-reader-fresh", "FL-fill-retry", "FL-err-prec"}},
 		{"AL", []string{"AL-*"}},
 		{"SM", []string{"SM-prefix"}},
-	}, map[string]int{"FL-chunk-once": 1, "FL-line-shape": 3, "FL-fill-account": 1, "AL-buffer": 1},
-		"Delivery independence is decided through its structural necessary conditions: nothing that outlives one readLine call aliases the refillable buffer (AL: inclusion-based points-to from the buffer to the scanner state and results; SM-prefix: the indentation is a fresh copy) — otherwise the outcome depends on when a refill happens; every byte count returned by Read is accounted for even when it comes with an error, the error is reported after the buffered data, unread data is slid correctly, lines are buf[r:r+i+1] with r advanced by the same amount, long lines are the in-order concatenation of buffer-full chunks (FL rules over all paths of fill/readSlice/readLine). Not decided: the relational invariant 0 ≤ r ≤ w ≤ 16384 across refills.",
+		{"RB", []string{"RB-*"}},
+	}, map[string]int{"FL-chunk-once": 1, "FL-line-shape": 3, "FL-fill-account": 1, "AL-buffer": 1, "RB-slice": 10, "RB-inv": 1, "RB-panic": 2, "RB-writers": 4, "RB-nonempty": 1},
+		"Delivery independence is decided through its structural necessary conditions: nothing that outlives one readLine call aliases the refillable buffer (AL: inclusion-based points-to from the buffer to the scanner state and results; SM-prefix: the indentation is a fresh copy) — otherwise the outcome depends on when a refill happens; every byte count returned by Read is accounted for even when it comes with an error, the error is reported after the buffered data, unread data is slid correctly, lines are buf[r:r+i+1] with r advanced by the same amount, long lines are the in-order concatenation of buffer-full chunks (FL rules over all paths of fill/readSlice/readLine); (RB) the relational invariant 0 <= r <= w <= 16384 and 0 <= s <= w-r is inferred by abstract interpretation in the octahedron domain over the cursor fields, their entry values and the loop variables, closed under every sequence of method calls and every Read result 0 <= n <= len(p): every slice of the buffer is in bounds whatever the chunking, the buffer handed to Read is never empty, the 'full buffer' panic is unreachable. Not decided: equality of the delivered bytes with the input beyond these structural conditions.",
 		"io.Reader contract: 0 <= n <= len(p)")
 	p("C10", []RuleSel{
 		{"SM", []string{"SM-cut-forward", "SM-cur-only", "SM-append", "SM-panic", "SM-deref"}},
@@ -155,7 +157,8 @@ func init() {
 		"")
 	p("C11", []RuleSel{
 		{"FL", []string{"FL-fill-once", "FL-fill-guard", "FL-write-now", "FL-remainder", "FL-unbuffered", "FL-suffix-once"}},
-	}, map[string]int{"FL-fill-once": 1, "FL-fill-guard": 1, "FL-write-now": 1, "FL-unbuffered": 2},
-		"The three mechanisms the property rests on are decided over all paths: fill returns after the first Read that delivers data or an error (FL-fill-once) and is reached only when no complete line is buffered (FL-fill-guard); each pass-through line is written by the very iteration that read it, before the next read (FL-write-now, FL-line-once); once the terminating line is known no further read happens (FL-remainder); the CLI writes to unbuffered stdout/stderr and re-feeds the remainder without reading ahead (FL-unbuffered, FL-suffix-once). Not decided: scheduling of the OS pipe.",
+		{"RB", []string{"RB-nonempty", "RB-inv", "RB-writers"}},
+	}, map[string]int{"FL-fill-once": 1, "FL-fill-guard": 1, "FL-write-now": 1, "FL-unbuffered": 2, "RB-nonempty": 1, "RB-inv": 1},
+		"The three mechanisms the property rests on are decided over all paths: fill returns after the first Read that delivers data or an error (FL-fill-once) and is reached only when no complete line is buffered (FL-fill-guard); each pass-through line is written by the very iteration that read it, before the next read (FL-write-now, FL-line-once); once the terminating line is known no further read happens (FL-remainder); the CLI writes to unbuffered stdout/stderr and re-feeds the remainder without reading ahead (FL-unbuffered, FL-suffix-once); the slice handed to Read always has room for at least one byte (RB-nonempty, from the inferred cursor invariant), so a blocked read is waiting for data and never spinning on an empty buffer. Not decided: scheduling of the OS pipe.",
 		"os.Stdout and colorable writers are unbuffered")
 }
